@@ -29,7 +29,7 @@ THEOREMS = [
     # sizes
     "Mpc.C13_bitLen_spec",
     "Mpc.C13_sizes_agree_partial",
-    "Mpc.C13_sizes_disagree_witness",
+    "Mpc.C13_old_bitLen_2_3_witness",
     "Mpc.C13_sizes_negative_witness",
     "Mpc.C13_inferred_size_uint",
     "Mpc.C13_inferred_size_slice",
@@ -39,9 +39,8 @@ THEOREMS = [
     "Mpc.C13_result_inverts_bool",
     "Mpc.C13_result_inverts_array",
     "Mpc.C13_result_inverts_array_int",
-    "Mpc.C13_result_pure_partial",
-    "Mpc.C13_result_not_pure_witness",
-    "Mpc.C13_result_not_repeatable_witness",
+    "Mpc.C13_result_pure",
+    "Mpc.C13_old_result_not_pure_witness",
     "Mpc.C13_result_nested_array_panics",
     "Mpc.C13_split_spec",
 ]
@@ -59,13 +58,14 @@ def distinct_ops(ctx, ops):
 def facts(ctx):
     """Cheap structural facts the model's shape relies on (T2)."""
     body = vlib.go_func_body("circuit/ioarg.go", r"bitLen\(")
-    ctx.fact("bitLen loop header", re.findall(r"for i := 63; i > (\d+); i--", body or ""), ["1"])
+    ctx.fact("bitLen loop header", re.findall(r"for i := 63; i > (\d+); i--", body or ""), ["0"])
     body = vlib.go_func_body("circuit/ioarg.go", r"setInt\(")
     ctx.fact("setInt writes a fixed 64-bit window", re.findall(r"for i := 0; i < (\w+); i\+\+", body or ""), ["64"])
     ctx.fact("setInt advances by t.Bits", bool(re.search(r"return ofs \+ int\(t\.Bits\), nil", body or "")), True)
     body = vlib.go_func_body("result.go", r"Result\(")
-    ctx.fact("Result's TInt branch operates on its argument in place",
-             bool(re.search(r"result\.Sub\(tmp, result\)\s*\n\s*result\.Neg\(result\)", body or "")), True)
+    ctx.fact("Result's TInt branch computes the sign fix into a fresh big.Int",
+             bool(re.search(r"result = new\(big\.Int\)\.Sub\(tmp, result\)\s*\n\s*result\.Neg\(result\)", body or ""))
+             and not re.search(r"^\s*result\.Sub\(tmp, result\)", body or "", flags=re.M), True)
     src = vlib.repo_file("circuit/ioarg.go")
     ctx.fact("reHexInput pattern", re.findall(r"reHexInput = regexp\.MustCompilePOSIX\(`([^`]*)`\)", src),
              ["^([[:digit:]]+)x([[:xdigit:]]*)$"])
